@@ -325,6 +325,12 @@ def suites_for(pid, rng, tier):
 
     FG = ("fgroup", "fgroup_keyed")
     SG = ("sgroup", "sgroup_keyed")
+
+    def nest_sim(name):
+        """a join of two joins / a merge of two merges (std build), predicted by composing the extracted model with itself (runner/main.ml nest_trace):
+           kind "nsim" = like "scan" (model trace compared under the projection, monitor on the implementation's trace), without the corpus and
+           without the extracted single-level predicates"""
+        S.append((name, "std", "nsim", gen.gen_nest(rng, ks // 2, "ys", combs=("nest_jj", "nest_mm"), local=True)))
     if pid == "C01":
         fixed("wake", CFG3, SCAN4 + ["race", "race_ok", "chain"])
         fixed("wake-large", ("std", "alloc"), SCAN4, ks // 4, large=True)
@@ -332,6 +338,7 @@ def suites_for(pid, rng, tier):
         S.append(("wake-wait", "std", "scan", gen.gen_wait(rng, ks // 2, "w")))
         for c in ("std", "alloc"):
             S.append(("wake-nest(monitor only)", c, "mon", gen.gen_nest(rng, ks // 2, "x" + c[0])))
+        nest_sim("wake-nest-sim")
         return "wakes-nv", S
     if pid == "C02":
         fixed("own", CFG3, SCAN4 + ["race", "race_ok", "chain"], panic=0.08)
@@ -345,6 +352,7 @@ def suites_for(pid, rng, tier):
         fixed("disc-large", ("std",), SCAN4, ks // 4, large=True)
         groups("disc-groups", ("std", "alloc"), FG + SG, ks)
         S.append(("disc-wait", "alloc", "scan", gen.gen_wait(rng, ks // 2, "w")))
+        nest_sim("disc-nest-sim")
         return "polls-nv", S
     if pid == "C04":
         fixed("join", CFG3, ["join"])
@@ -392,6 +400,7 @@ def suites_for(pid, rng, tier):
         groups("selective-groups", ("std",), FG + SG, k)
         small("selective-join", ("std",), "join")
         small("selective-merge", ("std",), "merge")
+        nest_sim("selective-nest-sim")
         return "polls-nv", S
     if pid == "C17":
         for c in CFG3:
@@ -408,6 +417,7 @@ def suites_for(pid, rng, tier):
         fixed("conc-large", ("std",), SCAN4, ks // 4, large=True)
         groups("conc-groups", ("std", "alloc"), FG + SG, ks)
         S.append(("conc-nest(monitor only)", "std", "mon", gen.gen_nest(rng, ks // 2, "xs", combs=("nest_jj", "nest_jr", "nest_rj", "nest_jt", "nest_gj", "nest_mm", "nest_gm"))))   # chain and zip are outside C20's second sentence
+        nest_sim("conc-nest-sim")
         return "polls-nv", S
     if pid in ("C13", "C14", "C15"):
         terms = {"C13": ("fe",), "C14": ("tfe", "rcol", "rcol"), "C15": ("fe", "tfe", "col", "rcol")}[pid]
@@ -659,7 +669,7 @@ def decide(pid, tier, seed):
         if bins is None:
             batch_fail.append((sname, cfg, "the harness does not build against the current tree:\n" + err, None))
             continue
-        extra = [] if kind in ("cov", "mon") else [c for c in corpus_cases if c.split(" ")[1].startswith("co:") == (kind == "co") and (f" {cfg}#" in c or "#" not in c)
+        extra = [] if kind in ("cov", "mon", "nsim") else [c for c in corpus_cases if c.split(" ")[1].startswith("co:") == (kind == "co") and (f" {cfg}#" in c or "#" not in c)
                                                    and not c.split(" ")[1].startswith("nest_")]      # nests have no model: monitor-only suites
         cases = [c.split("#")[0].rstrip() for c in extra] + cases if sname.endswith("exhaustive") is False else cases
         stats["configs"].add(cfg)
